@@ -3,6 +3,7 @@ package main
 // Path-sensitive reachability with per-path constant tracking of boolean phis (a per-path SCCP restricted to bool phis).
 
 import (
+	"strconv"
 	"go/constant"
 	"go/types"
 	"sort"
@@ -29,6 +30,45 @@ func psReach(fn *ssa.Function, starts []*ssa.BasicBlock, cut func(from *ssa.Basi
 
 // psReachVal additionally prunes edges whose facts contradict the integer valuation val (E2).
 func psReachVal(fn *ssa.Function, starts []*ssa.BasicBlock, cut func(from *ssa.BasicBlock, succ int) bool, val map[string]int64) map[*ssa.BasicBlock]bool {
+	return psReachValV(fn, starts, cut, val, nil)
+}
+
+var psHelperDepth int
+
+// evalHelperBool evaluates a same-package boolean helper under a valuation of its parameters: known only when every
+// feasible return yields the same boolean.
+func evalHelperBool(h *ssa.Function, hval map[string]int64) (res, known bool) {
+	if psHelperDepth > 2 || len(h.Blocks) == 0 {
+		return false, false
+	}
+	psHelperDepth++
+	saved := lastPsEdges
+	defer func() { psHelperDepth--; lastPsEdges = saved }()
+	seenT, seenF, unknown := false, false, false
+	psReachValV(h, []*ssa.BasicBlock{h.Blocks[0]}, nil, hval, func(b *ssa.BasicBlock, eval func(ssa.Value) (bool, bool)) {
+		r, ok := b.Instrs[len(b.Instrs)-1].(*ssa.Return)
+		if !ok || len(r.Results) == 0 {
+			return
+		}
+		v, k := eval(r.Results[0])
+		switch {
+		case !k:
+			unknown = true
+		case v:
+			seenT = true
+		default:
+			seenF = true
+		}
+	})
+	if unknown || seenT == seenF {
+		return false, false
+	}
+	return seenT, true
+}
+
+// psReachValV is psReachVal with a visitor called once per explored (block, environment) state; eval evaluates a
+// boolean value in that state.
+func psReachValV(fn *ssa.Function, starts []*ssa.BasicBlock, cut func(from *ssa.BasicBlock, succ int) bool, val map[string]int64, visit func(b *ssa.BasicBlock, eval func(ssa.Value) (bool, bool))) map[*ssa.BasicBlock]bool {
 	infeasible := map[*ssa.BasicBlock][2]bool{}
 	if val != nil {
 		for _, ef := range edgeFacts(fn) {
@@ -93,6 +133,29 @@ func psReachVal(fn *ssa.Function, starts []*ssa.BasicBlock, cut func(from *ssa.B
 					}
 				}
 			}
+		case *ssa.Call:
+			// a same-package boolean helper whose arguments are all valued
+			if val == nil {
+				return false, false
+			}
+			h := x.Call.StaticCallee()
+			if h == nil || h.Pkg == nil || h.Pkg != fn.Pkg || len(h.Blocks) == 0 || h == fn {
+				return false, false
+			}
+			hval := map[string]int64{}
+			for i, a := range x.Call.Args {
+				if k, ok := a.(*ssa.Const); ok && k.Value != nil && k.Value.Kind() == constant.Int {
+					hval["p"+strconv.Itoa(i)] = k.Int64()
+					continue
+				}
+				if v, ok := val[desc(a)]; ok {
+					hval["p"+strconv.Itoa(i)] = v
+				}
+			}
+			if len(hval) == 0 {
+				return false, false
+			}
+			return evalHelperBool(h, hval)
 		}
 		return false, false
 	}
@@ -116,6 +179,10 @@ func psReachVal(fn *ssa.Function, starts []*ssa.BasicBlock, cut func(from *ssa.B
 		}
 		seen[st] = true
 		reach[it.b] = true
+		if visit != nil {
+			e := it.e
+			visit(it.b, func(v ssa.Value) (bool, bool) { return evalV(v, e) })
+		}
 		// successors
 		var iff *ssa.If
 		if len(it.b.Instrs) > 0 {
